@@ -12,6 +12,7 @@ import (
 	"sort"
 	"time"
 
+	"github.com/google/uuid"
 	"github.com/wrgl/wrgl/pkg/ref"
 	reffs "github.com/wrgl/wrgl/pkg/ref/fs"
 )
@@ -46,6 +47,23 @@ func c15Sum(r *rand.Rand) string {
 	b[0] = byte(1 + r.Intn(5))
 	return hx(b)
 }
+
+func c15Num(v interface{}) int64 {
+	switch x := v.(type) {
+	case float64:
+		return int64(x)
+	case int:
+		return int64(x)
+	case int64:
+		return x
+	}
+	return 0
+}
+
+// caller-supplied log fields of the "txlog" cases: two transactions and none; authors, actions
+var c15Txids = []string{"", "00000000-0000-4000-8000-000000000001", "00000000-0000-4000-8000-000000000002"}
+var c15Authors = [][]string{{"a", "e"}, {"Ann Lee", "ann@example.com"}, {"", ""}, {"b_%", "B@Example.com"}}
+var c15Actions = []string{"act", "commit", "fetch", "merge", ""}
 
 func strs(l interface{}) []string {
 	out := []string{}
@@ -98,6 +116,7 @@ func c15Run(in *c15Input) Res {
 			sqlDB = db
 		}
 		out := []interface{}{}
+		txMade := map[uuid.UUID]bool{}
 		okErr := func(err error) {
 			if err != nil {
 				out = append(out, "err")
@@ -131,6 +150,25 @@ func c15Run(in *c15Input) Res {
 			case "setlogold":
 				// the caller supplies a stale old value: the store must log the value the ref really held
 				okErr(rs.SetWithLog(s(1), unhx(s(2)), &ref.Reflog{OldOID: unhx(s(4)), NewOID: unhx(s(2)), AuthorName: "a", AuthorEmail: "e", Time: time.Unix(1700000000, 0), Action: "act", Message: s(3)}))
+			case "setlogx":
+				// every caller-supplied field of the log entry chosen by the generator:
+				// [_, name, value, message, txid or "", author, e-mail, action, unix time]
+				rl := &ref.Reflog{NewOID: unhx(s(2)), AuthorName: s(5), AuthorEmail: s(6), Time: time.Unix(c15Num(op[8]), 0), Action: s(7), Message: s(3)}
+				if s(4) != "" {
+					id, err := uuid.Parse(s(4))
+					if err != nil {
+						return Err("txid")
+					}
+					if !txMade[id] {
+						// the transaction the entry belongs to exists
+						txMade[id] = true
+						if _, err := rs.NewTransaction(&ref.Transaction{ID: id, Status: ref.TSInProgress, Begin: time.Unix(1700000000, 0)}); err != nil && in.Store != "fs" {
+							return Err("new-tx")
+						}
+					}
+					rl.Txid = &id
+				}
+				okErr(rs.SetWithLog(s(1), unhx(s(2)), rl))
 			case "setlogfail":
 				// the reflog insert fails (trigger): ref and log are one SQL transaction, nothing may change
 				if sqlDB == nil {
@@ -190,7 +228,11 @@ func c15Run(in *c15Input) Res {
 					if l.OldOID != nil {
 						old = hx(l.OldOID)
 					}
-					es = append(es, []interface{}{old, hx(l.NewOID), l.Message})
+					var txid interface{}
+					if l.Txid != nil {
+						txid = l.Txid.String()
+					}
+					es = append(es, []interface{}{old, hx(l.NewOID), l.Message, txid, l.AuthorName, l.AuthorEmail, l.Action, l.Time.Unix()})
 					if len(es) > 10000 {
 						bad = true
 						break
@@ -238,7 +280,7 @@ func c15Run(in *c15Input) Res {
 	})
 }
 
-func genC15(r *rand.Rand, thorough bool) *c15Input {
+func genC15(r *rand.Rand, thorough bool, txlog bool) *c15Input {
 	n := 5 + r.Intn(30)
 	if thorough {
 		n = 5 + r.Intn(60)
@@ -334,6 +376,36 @@ func genC15(r *rand.Rand, thorough bool) *c15Input {
 		}
 		in.Ops = append(in.Ops, op)
 	}
+	if txlog {
+		// histories whose log entries differ in every caller-supplied field — some written under a
+		// transaction id, as `transaction commit` does — and are then carried along by copy/rename.
+		// (Draws made after all of the above: the plain cases are unchanged.)
+		logged := []string{}
+		for i, op := range in.Ops {
+			k := op[0].(string)
+			if (k != "setlog" && k != "setlogold") || r.Intn(3) == 0 {
+				continue
+			}
+			au := c15Authors[r.Intn(len(c15Authors))]
+			in.Ops[i] = []interface{}{"setlogx", op[1], op[2], op[3], c15Txids[r.Intn(len(c15Txids))], au[0], au[1],
+				c15Actions[r.Intn(len(c15Actions))], 1700000000 + r.Intn(100000)}
+			logged = append(logged, op[1].(string))
+		}
+		for j := 0; j < 3; j++ {
+			src := name()
+			if len(logged) > 0 && r.Intn(4) != 0 {
+				src = logged[r.Intn(len(logged))]
+			}
+			au := c15Authors[r.Intn(len(c15Authors))]
+			in.Ops = append(in.Ops, []interface{}{"setlogx", src, c15Sum(r), "x" + itoa(j), c15Txids[r.Intn(len(c15Txids))], au[0], au[1],
+				c15Actions[r.Intn(len(c15Actions))], 1700000000 + r.Intn(100000)})
+			dst := name()
+			if r.Intn(2) == 0 {
+				in.Ops = append(in.Ops, []interface{}{"del", dst})
+			}
+			in.Ops = append(in.Ops, []interface{}{[]string{"copy", "rename", "copy"}[r.Intn(3)], src, dst}, []interface{}{"log", dst})
+		}
+	}
 	// final observation of everything
 	in.Ops = append(in.Ops, []interface{}{"filter", []string{}, []string{}})
 	for _, nm := range c15Names {
@@ -357,7 +429,13 @@ func c15Nontrivial(in *c15Input) bool {
 }
 
 func runC15(ctx *Ctx) {
-	in := genC15(ctx.R, ctx.Thorough())
+	// every fourth case: log entries with generated author/action/time/transaction id ("txlog")
+	txlog := ctx.Idx%4 == 1
+	in := genC15(ctx.R, ctx.Thorough(), txlog)
+	if txlog && in.Store == "" {
+		ctx.Emit("ops", in, c15Run(in), c15Nontrivial(in), "txlog")
+		return
+	}
 	ctx.Emit("ops", in, c15Run(in), c15Nontrivial(in))
 }
 
